@@ -195,4 +195,15 @@ def run_shard(ctx):
 
 
 def replay(ctx, payload):
-    ctx.agg.inconclusive.append("C16 witnesses name the generated model; re-run the check with the same seed")
+    c = payload["case"]
+    mods = setup()
+    torch = mods[0]
+    torch.manual_seed(ctx.seed)
+    rng = asm.rng_for(ctx.seed, "c16")
+    for label, obj in torchfiles.models(torch, rng, 120):
+        if label == c.get("model"):
+            for text in payload_texts(ctx) + [s for s in gen.STRS if s not in ("\ud800", "\x00")]:
+                if f"__import__('vp_sink').hit('C16', {text!r})"[:200] == c.get("payload"):
+                    run_case(ctx, mods, label, obj, text, bool(c.get("overwrite")))
+                    return
+    ctx.agg.inconclusive.append("could not regenerate the witness model/payload from its label")
